@@ -37,6 +37,13 @@ def is_sym(x):
 class Sym:
     __hash__ = object.__hash__
 
+    # symbolic scalars are immutable values
+    def __copy__(self):
+        return self
+
+    def __deepcopy__(self, memo):
+        return self
+
 
 def _const_to_z3_real(v):
     if isinstance(v, bool):
